@@ -102,7 +102,7 @@ Proof.
   - cbn [pf_batch]. destruct (String.prefix p (ename e)) eqn:Ep.
     + destruct need as [|[|n]]; [lia| |].
       * exists 1. cbn [firstn filter fst snd length Nat.eqb last_name]. rewrite Ep.
-        repeat split; auto; try lia. cbn. lia.
+        repeat split; auto; try lia; cbn; lia.
       * destruct (IH (S n) (ename e)) as [j [J1 [J2 [J3 [J4 J5]]]]]; [lia|].
         destruct (pf_batch p (S n) b (ename e)) as [em l] eqn:Eb. cbn [fst snd] in *.
         exists (S j). cbn [firstn filter length Nat.eqb]. rewrite Ep. cbn [length].
@@ -209,7 +209,7 @@ Section Generic.
           unfold mem_list. f_equal. rewrite G4, del_expired_app, Hlast'.
           apply after_cont; [lia|exact Hkj|].
           intros e He. rewrite Hacc' in He. apply filter_In in He. tauto.
-        * rewrite skipn_add, skipn_length. rewrite skipn_length in Hfuel. lia.
+        * rewrite skipn_length. rewrite skipn_length in Hfuel. lia.
       + apply Nat.ltb_ge in C3.
         destruct J5 as [J5|[J5 J6]]; [|lia].
         exists (acc ++ em), last'. split; [reflexivity|].
@@ -223,7 +223,7 @@ Section Generic.
       split; [|split; [exact G6|split; [lia|]]].
       + intros Hk0. rewrite (G5 Hk0). subst k. cbn [skipn] in G3.
         destruct Hcase as [Hc|Hc].
-        * assert (L = 0) by (rewrite G1 in G2; cbn in G2; lia). subst L. reflexivity.
+        * assert (HL0 : L = 0) by (rewrite G1 in G2; cbn in G2; lia). rewrite HL0. reflexivity.
         * rewrite <- G3, Hc. reflexivity.
       + destruct Hcase as [Hc|Hc]; [left; lia|].
         destruct (Nat.eq_dec L 0) as [E0|E0]; [left; lia|].
@@ -235,7 +235,7 @@ Section Generic.
   Proof.
     intros v last [k [K0 [K1 [K2 [K3 [K5 K4]]]]]]. unfold scan_ok. cbn [w_vis w_last].
     assert (Ec : cand start incl p d0 = v ++ filter pre (skipn k A)).
-    { rewrite cand_as_filter. fold A. rewrite (filter_firstn_skipn pre k A), K1. reflexivity. }
+    { rewrite cand_as_filter. fold A. fold pre. rewrite (filter_firstn_skipn pre k A), K1. reflexivity. }
     assert (Hcut : v = firstn L (cand start incl p d0) /\ filter pre (skipn k A) = skipn L (cand start incl p d0)).
     { rewrite Ec. destruct K4 as [K4|K4].
       - rewrite <- K4. rewrite firstn_app, firstn_all, Nat.sub_diag. cbn [firstn]. rewrite app_nil_r.
